@@ -68,6 +68,18 @@ TITLES = {
     'C11b/2': ('glob expansion drops queued sub-directories when the same listing produced a file', 'a glob ending in ** over a directory holding both files and sub-directories'),
     'C19b/1': ('uncompressed-chunk page size check relaxed from != to <', 'a page header of an uncompressed chunk announcing uncompressed > compressed size'),
     'C19b/2': ('CSV header detection unwraps the UTF-8 decoding of the first record', 'invalid UTF-8 in the first line of a CSV file'),
+    'C15b/1': ('Session::bind propagates the verification plan\'s error with `?` before restoring the two settings', 'verify_optimized_plan on and a query whose unoptimized plan fails to build'),
+    'C15b/2': ('VALUES row-width check skipped by an early exit of the NULL-type inference loop', 'VALUES (1), (2, 3): a ragged VALUES list whose first row has no bare NULL'),
+    'C16/1': ('RowLayout::compute_heap_sizes assigns instead of accumulating per column', 'a row with two strings longer than 12 bytes (GROUP BY a, b / join build / sort payload)'),
+    'C16/2': ('BinaryMerger::merge no longer moves the right run\'s key heap blocks into the merged run', 'ORDER BY on strings tying on their first 12 bytes, three or more sorted runs'),
+    'C07c/1': ('a filter on group columns is pushed below a ROLLUP / CUBE aggregate as soon as ONE grouping set has the columns (.all -> .any)', 'GROUP BY ROLLUP (a) HAVING a = 1 / HAVING a IS NULL'),
+    'C07c/2': ('bit_and merge drops the "other state is empty" check', 'a partition with no non-NULL row of the group merged into a state that holds a value'),
+    'C10c/1': ('a bit-packed run resumed by a second read restarts at bit 0 of the current byte', 'a batch boundary in the middle of a bit-packed run (definition levels / dictionary indices) not on a byte boundary'),
+    'C10c/2': ('data page v2 trusts the header\'s is_compressed flag instead of the chunk codec', 'a v2 page in an UNCOMPRESSED chunk with the flag absent or true'),
+    'C13c/1': ('timestamp formatters split ticks with truncating / and % and take |remainder|', 'a TIMESTAMP(ms / us) before 1970 with a sub-second part cast to text'),
+    'C13c/2': ('DOUBLE -> REAL marked safe to flatten', 'CAST(CAST(d AS REAL) AS DOUBLE) for a DOUBLE that is not exact in f32'),
+    'C14c/1': ('CREATE SCHEMA IF NOT EXISTS replaces an existing schema by an empty one', 'CREATE SCHEMA IF NOT EXISTS on a schema that holds tables'),
+    'C14c/2': ('INSERT skips the implicit cast when only type parameters differ', 'INSERT of DECIMAL(3,2) values into a DECIMAL(10,4) column'),
     'C14b/2': ('INSERT flushes the table after every batch', 'INSERT ... SELECT from the same table, or an INSERT whose source fails after the first batch'),
 }
 # how the machinery fared before / after strengthening (filled by hand from the session log)
